@@ -95,8 +95,8 @@ class Deco:
 
 
 class Program:
-    def __init__(self, sources):
-        """sources: dict module filename -> source text"""
+    def __init__(self, sources, normalise_aliases=True):
+        """sources: dict module filename -> source text; pure local aliases are propagated (sa/normalise.py) unless disabled"""
         self.sources = sources
         self.trees = {}
         for name in CORE_MODULES + EXTRA_MODULES:
@@ -108,6 +108,9 @@ class Program:
                 self.trees[name] = ast.parse(sources[name], filename=name)
             except SyntaxError as e:
                 raise AnalysisError(f"syntax error in {name}: {e}")
+            if normalise_aliases:
+                from .normalise import normalise
+                self.n_aliases = getattr(self, "n_aliases", 0) + normalise(self.trees[name])
         self.classes = {}  # name -> (ClassDef, module)
         self.module_funcs = {}  # (module, name) -> FunctionDef
         self.parent = {}
@@ -134,7 +137,7 @@ class Program:
             if isinstance(n, ast.ClassDef):
                 self._h[n.name] = [b.attr if isinstance(b, ast.Attribute) else getattr(b, "id", "?") for b in n.bases]
         self._cache = {}
-        self.stats = {"functions": len(self.functions), "classes": len(self.classes),
+        self.stats = {"aliases_propagated": getattr(self, "n_aliases", 0), "functions": len(self.functions), "classes": len(self.classes),
                       "modules": sorted(self.trees), "ast_nodes": len(self.parent) + len(self.trees)}
 
     @classmethod
